@@ -384,6 +384,24 @@ func (e *Exec) loopWriteSet(fr *frame, h *ssa.BasicBlock) (map[string]bool, map[
 		}
 		for _, in := range b.Instrs {
 			e.instrWrites(fr.fn, in, ws)
+			if ci, ok := in.(ssa.CallInstruction); ok && fr.spec != nil {
+				if f := ci.Common().StaticCallee(); f != nil {
+					for _, gs := range fr.spec.GhostSets {
+						if gs.OnStore == "" && gs.Callee == f.Name() {
+							ws["G$"+gs.Var] = true
+						}
+					}
+				}
+			}
+			if s, ok := in.(*ssa.Store); ok && fr.spec != nil {
+				if a, ok := s.Addr.(*ssa.Alloc); ok {
+					for _, gs := range fr.spec.GhostSets {
+						if gs.OnStore != "" && gs.OnStore == a.Comment {
+							ws["G$"+gs.Var] = true
+						}
+					}
+				}
+			}
 			if s, ok := in.(*ssa.Store); ok {
 				if a, ok := s.Addr.(*ssa.Alloc); ok {
 					cells[a] = true
@@ -1086,6 +1104,7 @@ func (e *Exec) contractCall(fr *frame, st *State, callee *ssa.Function, spec *Fu
 			ws[m.heap] = true
 		}
 	}
+	var cbs []*Closure
 	// closures passed to a function known only by contract may be called by
 	// it any number of times: their effects are added, without a frame
 	if callee == nil || spec.Extern || spec.Trusted || callee.Blocks == nil {
@@ -1101,9 +1120,28 @@ func (e *Exec) contractCall(fr *frame, st *State, callee *ssa.Function, spec *Fu
 					}
 				}
 				e.trust("callback " + funcKey(a.Clo.Fn) + " passed to " + key + ": modelled as called any number of times (its write set is havoced)")
+				if cs := e.specOf(a.Clo.Fn); cs != nil && len(cs.Preserves) > 0 {
+					cbs = append(cbs, a.Clo)
+					// the callback's invariant over its captured variables holds before
+					// the call, is preserved by every invocation, so it holds afterwards
+					for _, c := range cs.Preserves {
+						v := e.closureEnv(fr, st, a.Clo, cs).eval(c.E)
+						e.oblige(fr, st, "pre:callback:"+a.Clo.Fn.Name(), "invariant of callback "+funcKey(a.Clo.Fn)+" holds before it is handed to "+key+": "+c.Src, pos, v.T)
+					}
+				}
 			}
 		}
 	}
+	defer func() {
+		for _, clo := range cbs {
+			cs := e.specOf(clo.Fn)
+			for _, c := range cs.Preserves {
+				v := e.closureEnv(fr, st, clo, cs).eval(c.E)
+				e.ctx.assume(imp(st.pc, v.T))
+			}
+			e.trust("invariant of callback " + funcKey(clo.Fn) + " is carried across the call of " + key + " (the callee is assumed to touch the captured variables only through the callback)")
+		}
+	}()
 	// caller's frame: callee's declared locations must be inside it
 	if e.spec != nil && e.spec.HasMod && !e.modAll {
 		for _, m := range mods {
@@ -1240,6 +1278,28 @@ func (e *Exec) contractCall(fr *frame, st *State, callee *ssa.Function, spec *Fu
 			pw := c2.eval(ch.E)
 			e.ctx.assume(imp(st.pc, imp(fmt.Sprintf("(exists ((%s %s)) %s)", bv, w.S, pb.T), pw.T)))
 			e.topFrame.entryParams[ch.Name] = w
+		}
+	}
+	if callee != nil && e.topFrame != nil && e.topFrame.spec != nil && fr == e.topFrame {
+		for _, gs := range e.topFrame.spec.GhostSets {
+			if gs.OnStore != "" || gs.Callee != callee.Name() {
+				continue
+			}
+			g, ok := e.ss.GhostVars[gs.Var]
+			if !ok {
+				e.specErrors = append(e.specErrors, "ghostset: unknown ghost variable "+gs.Var)
+				continue
+			}
+			genv := e.specEnv(fr, st, nil)
+			for k, v := range fr.entryParams {
+				if _, isLocal := fr.locals[k]; !isLocal {
+					genv.vars[k] = v
+				}
+			}
+			bindResults(genv.vars, callee, sig, res)
+			v := genv.eval(gs.E)
+			genv.ghostVar(g) // registers the ghost heap
+			e.setHeap(st, "G$"+gs.Var, v.T)
 		}
 	}
 	if callee != nil && e.topFrame != nil && e.topFrame.spec != nil && fr == e.topFrame {
@@ -1501,9 +1561,51 @@ func (e *Exec) lockInvariant(fr *frame, st *State, callee *ssa.Function, args []
 	ov := ownerV
 	ov.GoT = types.NewPointer(ownerT)
 	env.vars["lk$owner"] = ov
+	if after {
+		// what the lock protects may have been changed by other threads while
+		// this one did not hold it: forget it, then assume the invariant
+		penv := e.specEnv(e.topFrame, st, nil)
+		penv.vars["owner"] = ov
+		penv.spec = &FuncSpec{Pkg: pkgPathOf(ownerT)}
+		penv.fn = nil
+		pre := st.clone()
+		e.havocProtected(fr, st, penv, e.ss.LockProt[name], pos, name)
+		env = e.specEnv(e.topFrame, st, nil)
+		env.vars["lk$owner"] = ov
+		if rely, ok := e.ss.LockRely[name]; ok {
+			// every critical section of every thread maintains the rely relation
+			// (checked at release), so it relates the forgotten values to the old ones
+			renv := e.specEnv(e.topFrame, st, nil)
+			renv.old = pre
+			renv.vars["owner"] = ov
+			renv.spec = &FuncSpec{Pkg: pkgPathOf(ownerT)}
+			renv.fn = nil
+			rv := renv.eval(rely)
+			e.ctx.assume(imp(st.pc, rv.T))
+		}
+	} else if rely, ok := e.ss.LockRely[name]; ok {
+		snap := st.snaps[name+"@"+ov.T]
+		if snap == nil {
+			e.oblige(fr, st, "lockrely:"+typeShortName(ownerT)+"."+fld, "the state at the acquisition of "+name+" is not unique here; the rely relation cannot be checked", pos, "false")
+		} else {
+			renv := e.specEnv(e.topFrame, st, nil)
+			renv.old = snap
+			renv.vars["owner"] = ov
+			renv.spec = &FuncSpec{Pkg: pkgPathOf(ownerT)}
+			renv.fn = nil
+			rv := renv.eval(rely)
+			e.oblige(fr, st, "lockrely:"+typeShortName(ownerT)+"."+fld, "critical section maintains the rely relation of "+name, pos, rv.T)
+		}
+	}
 	v := env.specCall(sf, ECall{Fn: fn, Args: []Expr{EIdent{"lk$owner"}}})
 	if after {
 		e.ctx.assume(imp(st.pc, v.T))
+		if _, ok := e.ss.LockRely[name]; ok {
+			if st.snaps == nil {
+				st.snaps = map[string]*State{}
+			}
+			st.snaps[name+"@"+ov.T] = st.clone()
+		}
 		e.trust("lock invariant " + fn + " of " + name + " is assumed on acquisition (it is checked at every release)")
 	} else {
 		e.oblige(fr, st, "lockinv:"+typeShortName(ownerT)+"."+fld, "lock invariant "+fn+" holds when "+name+" is released", pos, v.T)
@@ -1619,6 +1721,12 @@ func (e *Exec) localLockInvariant(fr *frame, st *State, after bool, pos token.Po
 			}
 		}
 	}
+	if after {
+		e.havocProtected(fr, st, env, e.ss.LockProt[key], pos, key)
+		env2 := e.specEnv(e.topFrame, st, nil)
+		env2.vars = env.vars
+		env = env2
+	}
 	v := env.eval(ex)
 	if after {
 		e.ctx.assume(imp(st.pc, v.T))
@@ -1731,4 +1839,82 @@ func (e *Exec) ghostInit(fr *frame, st *State, gi GhostInit) {
 	rhs := env.eval(gi.E)
 	e.ctx.assume(imp(st.pc, eq(lhs.T, rhs.T)))
 	e.trust("ghost initialisation " + gi.Src + " in " + e.key + " (the ghost argument of a lock created by this activation; unconstrained before)")
+}
+
+// havocProtected forgets the locations a lock protects (its `protects`
+// list), evaluated in env, at the moment the lock is acquired.
+func (e *Exec) havocProtected(fr *frame, st *State, env *SpecEnv, locs []Expr, pos token.Pos, what string) {
+	if len(locs) == 0 {
+		return
+	}
+	var mods []heapLoc
+	ws := map[string]bool{}
+	for _, l := range locs {
+		for _, hl := range env.evalLoc(l) {
+			if hl.heap == "*" {
+				e.specErrors = append(e.specErrors, "lockinv "+what+": since() cannot be used in `protects`")
+				continue
+			}
+			mods = append(mods, hl)
+			ws[hl.heap] = true
+		}
+	}
+	e.havocWrites(fr, st, ws, mods, &FuncSpec{HasMod: true}, pos, "acquire "+what)
+	e.trust("on acquiring " + what + " the locations it protects are forgotten (other threads may have changed them)")
+}
+
+// closureEnv: an environment in which the captured variables of a closure are
+// named by their content (as in the closure's own contract).
+func (e *Exec) closureEnv(fr *frame, st *State, clo *Closure, cs *FuncSpec) *SpecEnv {
+	env := &SpecEnv{ex: e, st: st, old: st, vars: map[string]Val{}, fn: clo.Fn, spec: cs, callerFr: fr, addrs: map[string]Val{}}
+	for i, fvv := range clo.Fn.FreeVars {
+		if i < len(clo.Bindings) && clo.Bindings[i].T != "" {
+			t := fvv.Type().Underlying().(*types.Pointer).Elem()
+			env.vars[fvv.Name()] = env.loadRef(clo.Bindings[i].T, t)
+			env.addrs[fvv.Name()] = Val{T: clo.Bindings[i].T, S: sInt, GoT: fvv.Type()}
+		}
+	}
+	return env
+}
+
+// ghostOnStore: `ghostset g = expr onstore v [in loop n]`: ghost assignment
+// right after a store to the local variable v of the function under
+// verification; expr may mention `value` (stored) and `oldvalue` (overwritten).
+func (e *Exec) ghostOnStore(fr *frame, st *State, a *ssa.Alloc, oldV, newV Val, blk *ssa.BasicBlock) {
+	if fr != e.topFrame || fr.spec == nil {
+		return
+	}
+	for _, gs := range fr.spec.GhostSets {
+		if gs.OnStore == "" || gs.OnStore != a.Comment {
+			continue
+		}
+		if gs.InLoop > 0 {
+			if gs.InLoop > len(fr.loops.headers) {
+				e.specErrors = append(e.specErrors, "ghostset ("+gs.Line+"): no loop "+fmt.Sprint(gs.InLoop))
+				continue
+			}
+			h := fr.loops.headers[gs.InLoop-1]
+			if !fr.loops.body[h][blk] || blk == h && false {
+				continue
+			}
+		}
+		g, ok := e.ss.GhostVars[gs.Var]
+		if !ok {
+			e.specErrors = append(e.specErrors, "ghostset: unknown ghost variable "+gs.Var)
+			continue
+		}
+		genv := e.specEnv(fr, st, nil)
+		for k, v := range fr.entryParams {
+			if _, isLocal := fr.locals[k]; !isLocal {
+				genv.vars[k] = v
+			}
+		}
+		t := a.Type().Underlying().(*types.Pointer).Elem()
+		newV.GoT, oldV.GoT = t, t
+		genv.vars["value"] = newV
+		genv.vars["oldvalue"] = oldV
+		v := genv.eval(gs.E)
+		genv.ghostVar(g)
+		e.setHeap(st, "G$"+gs.Var, v.T)
+	}
 }
